@@ -83,7 +83,7 @@ func pageCase(name string, files map[string]string, comps map[string]string, pag
 
 func init() {
 	// the model reports an error class; only "an error" is compared
-	for _, p := range []string{"C01", "C03", "C04", "C05", "C06", "C10", "C11", "C13", "C14", "C16"} {
+	for _, p := range []string{"C01", "C03", "C04", "C05", "C06", "C10", "C11", "C13", "C14", "C16", "C20"} {
 		p := p
 		prev := postModel[p]
 		postModel[p] = func(c *Case, m any) any {
